@@ -224,9 +224,30 @@ def pps(ss, ind=''):
             out.append(f'{ind}{pp(s[1])}.{s[2]}(' + ', '.join(pp(a) for a in s[3]) + ');')
         elif k == 'log':
             out.append(f'{ind}console.{s[1]}(' + ', '.join(pp(a) for a in s[2]) + ');')
+        elif k == 'ternstmt':
+            out.append(f'{ind}{stmt_as_expr(s)};')
         else:
             raise ValueError(s)
     return out
+
+
+def stmt_as_expr(s):
+    """a void statement written as an expression (arms of a conditional expression used as a statement)"""
+    k = s[0]
+    if k == 'ternstmt':
+        a, b = stmt_as_expr(s[2]), stmt_as_expr(s[3])
+        a = f'({a})' if s[2][0] == 'ternstmt' else a
+        b = f'({b})' if s[3][0] == 'ternstmt' else b
+        return f'{pp(s[1])} ? {a} : {b}'
+    if k == 'callm':
+        return f'{pp(s[1])}.{s[2]}(' + ', '.join(pp(a) for a in s[3]) + ')'
+    if k == 'setprop':
+        return f'({pp(s[1])}.{s[2]} = {pp(s[3])})'
+    if k == 'assign':
+        return f'({s[1]} = {pp(s[2])})'
+    if k == 'log':
+        return f'console.{s[1]}(' + ', '.join(pp(a) for a in s[2]) + ')'
+    raise ValueError(s)
 
 
 # ----------------------------------------------------------------------------- documented typing
